@@ -79,3 +79,9 @@ Definition qs_mismatches (cs : list qs_case) : list nat := mismatches_from qs_ca
 (* per case: does the label list satisfy the hypotheses of C19_config_independent_partial? *)
 Definition qs_hyps (cs : list qs_case) : list bool :=
   map (fun c => let '(d, m, ls, _, _) := c in wf_client ls && no_findings (mkCfg d m) ls) cs.
+
+(* ... and of C19_order_exactly_once_partial (no scheduling hypothesis)? *)
+Definition qs_hyps_safety (cs : list qs_case) : list bool :=
+  map (fun c => let '(d, m, ls, _, _) := c in
+                let r := q_run (mkCfg d m) q_init ls in
+                wf_client (effective ls (snd r)) && no_findings_safety (mkCfg d m) ls) cs.
